@@ -211,6 +211,30 @@ Theorem C01_conn_bytes_not_reinterpreted :
              buf br = [] /\ map Some (inner br) ++ snd (take_chunks (map Some cs ++ later)) = later.
 Proof. exact conn_bytes_not_reinterpreted. Qed.
 
+(* After kept-alive requests, a malformed request is answered 400 and the connection closes ... *)
+Theorem C01_conn_then_bad_request :
+  forall (ipp : bytes -> option bytes) (rs : list croute) (date : bytes) (p : peer)
+         (css : list chunks) (reqs : list request) (bad : chunks),
+  Forall2 (fun cs req => wf_chunks cs /\ parse_request_flat ipp p (concat cs) = Ok (req, [])) css reqs ->
+  Forall (fun req => is_upgrade req = false /\ respond rs date req <> None /\ keep_alive_of req = true) reqs ->
+  wf_chunks bad -> parse_request_chunked ipp p bad = Err E_Request ->
+  serve_conn ipp rs date p (concat (map (fun cs => map Some cs) css) ++ map Some bad) =
+  (flat_map (response_of rs date) reqs ++ [serialize_response (add_default_headers date None (error_response 400))],
+   EBadRequest).
+Proof. exact conn_then_bad_request. Qed.
+
+(* ... and a timed-out wait is answered 408 and the connection closes (whatever the client sends afterwards). *)
+Theorem C01_conn_then_timeout :
+  forall (ipp : bytes -> option bytes) (rs : list croute) (date : bytes) (p : peer)
+         (css : list chunks) (reqs : list request) (t : list (option bytes)),
+  Forall2 (fun cs req => wf_chunks cs /\ parse_request_flat ipp p (concat cs) = Ok (req, [])) css reqs ->
+  Forall (fun req => is_upgrade req = false /\ respond rs date req <> None /\ keep_alive_of req = true) reqs ->
+  Forall (fun o => o <> Some []) t ->
+  serve_conn ipp rs date p (concat (map (fun cs => map Some cs) css) ++ None :: t) =
+  (flat_map (response_of rs date) reqs ++ [serialize_response (add_default_headers date None (error_response 408))],
+   ETimeout).
+Proof. exact conn_then_timeout. Qed.
+
 (* ---- 4. known findings ---- *)
 
 (* F01: two complete keep-alive requests delivered by ONE read: only the first is answered (and the server then just
@@ -223,6 +247,23 @@ Theorem C01_conn_readahead_refuted :
     length (fst (serve_conn ipv4_parse rs date p [Some (r1 ++ r2)])) = 1%nat /\
     snd (serve_conn ipv4_parse rs date p [Some (r1 ++ r2)]) = EClosedByClient.
 Proof. exact conn_readahead_refuted. Qed.
+
+(* F01 for ALL inputs of that class: one read of at most 8192 bytes delivers a complete request r1 followed by any
+   further bytes r2.  The parser returns r1's request with ALL of r2 in the BufReader's buffer and nothing unread; the
+   connection then behaves exactly as if r2 had never been sent (neither answered nor rejected). *)
+Theorem C01_parse_request_chunked_coalesced :
+  forall (ipp : bytes -> option bytes) (p : peer) (r1 r2 : bytes) (req : request),
+  (length (r1 ++ r2) <= cap)%nat ->
+  parse_request_flat ipp p r1 = Ok (req, []) ->
+  exists br, parse_request_chunked ipp p [r1 ++ r2] = Ok (req, br) /\ buf br = r2 /\ inner br = [].
+Proof. exact parse_request_chunked_coalesced. Qed.
+
+Theorem C01_conn_readahead_general :
+  forall (ipp : bytes -> option bytes) (rs : list croute) (date : bytes) (p : peer) (r1 r2 : bytes) (req : request),
+  (length (r1 ++ r2) <= cap)%nat -> parse_request_flat ipp p r1 = Ok (req, []) ->
+  serve_conn ipp rs date p [Some (r1 ++ r2)] = expected rs date [req] ([], EClosedByClient) /\
+  serve_conn ipp rs date p [Some (r1 ++ r2)] = serve_conn ipp rs date p [Some r1].
+Proof. exact conn_readahead_general. Qed.
 
 (* F32: every response with a non-empty body is followed by CRLF outside its Content-Length. *)
 Theorem C01_conn_stray_crlf_refuted :
@@ -288,6 +329,10 @@ Print Assumptions C01_conn_stops_at_first.
 Print Assumptions C01_conn_stays_open_iff.
 Print Assumptions C01_conn_segmentation_independent.
 Print Assumptions C01_conn_bytes_not_reinterpreted.
+Print Assumptions C01_conn_then_bad_request.
+Print Assumptions C01_conn_then_timeout.
+Print Assumptions C01_parse_request_chunked_coalesced.
+Print Assumptions C01_conn_readahead_general.
 Print Assumptions C01_conn_readahead_refuted.
 Print Assumptions C01_conn_stray_crlf_refuted.
 Print Assumptions C01_example_aligned.
